@@ -134,6 +134,7 @@ GenMap   == /\ mode = "map" /\ ~go /\ go' = TRUE /\ UNCHANGED args
                                         [] b[1] = "ren"   -> [collides |-> Collides(a, b[2]), relabel |-> Relabel(a, b[2])]]))
 GenCall  == /\ mode = "call" /\ ~go /\ go' = TRUE /\ UNCHANGED args
             /\ PrintT(ToJson([op |-> "call", par |-> a, base |-> Base, out |-> Outcome(a, Base)]))
+NextGen == GenUlist \/ GenMap \/ GenCall
 InitGenUlist == InitUlist /\ go = FALSE
 InitGenMap   == InitMap /\ go = FALSE
 InitGenCall  == InitCall /\ go = FALSE
